@@ -67,6 +67,8 @@ func main() {
 		os.Exit(cmdMutant(os.Args[2:]))
 	case "cfg":
 		os.Exit(cmdCFG(os.Args[2:]))
+	case "asserts":
+		os.Exit(cmdAsserts(os.Args[2:]))
 	case "facts":
 		os.Exit(cmdFacts(os.Args[2:]))
 	default:
